@@ -109,7 +109,7 @@ Post(ev) ==
     [] op = "from_str" -> PostFromStr(a[1].v, p, r, o)
     [] op = "repr" -> PostReprRoundTrip(Arg(a[1]), a[2].v, p)
     [] op = "nstr" -> PostNearestDigits(Arg(a[1]), a[2].v, ZToInt(Zj(a[3])))
-    [] op = "oblig" -> Holds(ev.x.j)
+    [] op = "oblig" -> HoldsWith(ev.x.j, ev.x.defs)
     [] op = "exact_or_ulp" -> o.k = "f" /\ ExactOrUlp(o.v, ev.x.e, p)
     [] op = "int_eq" -> o.k = "z" /\ LET v == Ev(ev.x.e, 0) IN ZCmp(v[2], ZOne) = 0 /\ ZCmp(o.v, v[1]) = 0
     [] op = "none" -> TRUE
